@@ -108,7 +108,7 @@ def attribute(ev, checked):
     if not isinstance(ev, dict):
         return False
     op = ev.get("op")
-    if op in ("fail", "closedb", "cleanreopen", "crashprobe", "reopen", "checkpoint", "scanint"):
+    if op in ("fail", "closedb", "cleanreopen", "crashprobe", "reopen", "checkpoint", "scanint", "lsm", "removed", "dirlist"):
         return True
     return ev.get("cls") in checked
 
